@@ -1677,6 +1677,14 @@ func (tx *Transaction) auditLogCollectFiles() []plugintypes.AuditLogTransactionR
 // This method helps the GC to clean up the transaction faster and release resources
 // It also allows caches the transaction back into the sync.Pool
 func (tx *Transaction) Close() error {
+	// newTransaction always sets a context and Close drops it (a pooled object
+	// must not keep the request's context alive), which also marks the
+	// transaction as closed: closing twice must not put the object into the
+	// pool twice, or the pool hands it to two live transactions.
+	if tx.context == nil {
+		return nil
+	}
+	tx.context = nil
 	defer tx.WAF.txPool.Put(tx)
 
 	var errs []error
